@@ -8,6 +8,7 @@ import (
 	"path/filepath"
 	"regexp"
 	"sort"
+	"strconv"
 
 	"golang.org/x/tools/go/ssa"
 )
@@ -133,6 +134,42 @@ func (e *c14env) c14dirEdges(fn *ssa.Function, val int64) []Edge {
 	return out
 }
 
+// c14dirDominates: instruction in of fn is reached only behind an edge on which m.direction == val, the test
+// being written inline, kept in a local boolean or made by a boolean helper (IsEncode / IsDecode).
+func (c *Ctx) c14dirDominates(e *c14env, fn *ssa.Function, in ssa.Instruction, val int64) bool {
+	top := cxTop(fn)
+	atom := func(fr *cxFrame, a Atom) (onTrue, onFalse bool) {
+		if a.Op != token.EQL && a.Op != token.NEQ {
+			return false, false
+		}
+		x, y := a.X, a.Y
+		if _, ok := c14loadOf(y, e.msgDir); ok {
+			x, y = y, x
+		}
+		base, ok := c14loadOf(x, e.msgDir)
+		if !ok {
+			return false, false
+		}
+		if r := fr.resolve(base); r.fr != top || len(fn.Params) == 0 || r.v != ssa.Value(fn.Params[0]) {
+			return false, false
+		}
+		k, ok := constInt(fr.resolve(y).v)
+		if !ok || k != val {
+			return false, false
+		}
+		eq := a.Op == token.EQL
+		if a.Neg {
+			eq = !eq
+		}
+		return eq, !eq
+	}
+	cuts := c.cxFactCuts(top, atom, cxDepth)
+	if len(cuts.Edges)+len(cuts.Via) == 0 {
+		return false
+	}
+	return findPath(entryPoint(fn), Target{Instr: in}, cuts) == nil
+}
+
 func c14dominatedByAny(fn *ssa.Function, in ssa.Instruction, edges []Edge) bool {
 	if len(edges) == 0 {
 		return false
@@ -156,33 +193,34 @@ func c14r1(c *Ctx) {
 	sz, _ := constant.Int64Val(c14constVal(intSize))
 	c.Check(sz == 8, rule, "IntSize==8", "IntSize is 8", "IntSize is not 8: integers do not travel as 8 bytes", intSize.Pos())
 
-	// --- PutInt
+	// --- PutInt (with the unexported helpers it calls spliced in: a flush step, a write step)
 	pi := e.putInt
-	var put []ssa.CallInstruction
-	allInstrs(pi, func(_ *ssa.BasicBlock, _ int, in ssa.Instruction) {
-		call, ok := in.(ssa.CallInstruction)
-		if !ok {
-			return
+	flush := c.LookupFn("message", "(*Message).FlushFrame")
+	isBinary := func(_ *cxFrame, call ssa.CallInstruction) bool {
+		o := calleeObj(call)
+		return o != nil && o.Pkg() != nil && o.Pkg().Path() == "encoding/binary"
+	}
+	dp := c.c14deepOf(e, pi, flush)
+	var put []c14site
+	for _, s := range dp.calls(isBinary) {
+		if o := calleeObj(s.in.(ssa.CallInstruction)); o == e.putU64 {
+			put = append(put, s)
+		} else {
+			c.Violate(rule, fnName(pi)+"#byteorder", "PutInt encodes with "+o.FullName()+" instead of binary.BigEndian.PutUint64", s.in.Pos())
 		}
-		if o := calleeObj(call); o != nil && o.Pkg() != nil && o.Pkg().Path() == "encoding/binary" {
-			if o == e.putU64 {
-				put = append(put, call)
-			} else {
-				c.Violate(rule, fnName(pi)+"#byteorder", "PutInt encodes with "+o.FullName()+" instead of binary.BigEndian.PutUint64", call.Pos())
-			}
-		}
-	})
+	}
 	if c.Check(len(put) == 1, rule, fnName(pi)+"#PutUint64", "exactly one binary.BigEndian.PutUint64 call", "PutInt does not contain exactly one binary.BigEndian.PutUint64 call", pi.Pos()) {
-		args := put[0].Common().Args // receiver, buffer, value
-		root, n, _, isConst, full := c14sliceLen(args[1])
-		c.Check(full && isConst && n == 8 && n == sz, rule, fnName(pi)+"#buf8", "the encode buffer is a whole 8-byte slice", "the buffer handed to PutUint64 is not a whole slice of constant length 8 = IntSize", put[0].Pos())
-		par := c14lastParam(pi)
-		c.Check(mustDepend(pi, args[2], func(v ssa.Value) bool { return v == ssa.Value(par) }), rule, fnName(pi)+"#value", "the encoded value derives from the parameter", "the value handed to PutUint64 does not derive from PutInt's parameter", put[0].Pos())
-		uses, unknown := e.c14bufUses(pi)
+		args := put[0].in.(ssa.CallInstruction).Common().Args // receiver, buffer, value
+		buf := dp.num(put[0].fr, args[1])
+		root, n, _, isConst, full := c14sliceLen(buf.v)
+		c.Check(full && isConst && n == 8 && n == sz, rule, fnName(pi)+"#buf8", "the encode buffer is a whole 8-byte slice", "the buffer handed to PutUint64 is not a whole slice of constant length 8 = IntSize", put[0].in.Pos())
+		par := cxVal{dp.top, ssa.Value(c14lastParam(pi))}
+		c.Check(dp.mentionsDeep(put[0].fr, args[2], func(f *cxFrame, v ssa.Value) bool { return cxVal{f, v} == par }), rule, fnName(pi)+"#value", "the encoded value derives from the parameter", "the value handed to PutUint64 does not derive from PutInt's parameter", put[0].in.Pos())
+		uses, unknown := dp.uses()
 		for _, u := range unknown {
 			c.Undecided(rule, fnName(pi)+"#buffer-escapes", "Message.buffer is used in a way the rule cannot classify", u.Pos())
 		}
-		var writes []c14bufUse
+		var writes []c14duse
 		for _, u := range uses {
 			if u.Kind == "write" {
 				writes = append(writes, u)
@@ -193,38 +231,34 @@ func c14r1(c *Ctx) {
 		}
 		okW := len(writes) == 1 && writes[0].Method == "Write"
 		if okW {
-			wroot, _, _, _, wfull := c14sliceLen(writes[0].Arg)
-			okW = wfull && wroot == root && root != nil
+			wb := dp.num(writes[0].fr, writes[0].Arg)
+			wroot, _, _, _, wfull := c14sliceLen(wb.v)
+			okW = wfull && wroot == root && root != nil && wb.fr == buf.fr
 			if okW {
 				// PutUint64 fills the buffer before it is written
-				okW = findPath(entryPoint(pi), Target{Instr: writes[0].Call}, newCuts().AddInstrs(put[0])) == nil
+				okW = dp.reach(cxEntry(dp.top), map[c14site]bool{{writes[0].fr, writes[0].Call}: true}, c14siteSet(put), nil) == nil
 			}
 		}
 		c.Check(okW, rule, fnName(pi)+"#write8", "the only buffer write appends the 8 encoded bytes", "PutInt does not append exactly the whole 8-byte buffer filled by PutUint64 (one Write, after the encode)", pi.Pos())
 	}
 
-	// --- GetInt
+	// --- GetInt (with the unexported helpers it calls spliced in: a read-exactly step)
 	gi := e.getInt
-	var get []ssa.CallInstruction
-	allInstrs(gi, func(_ *ssa.BasicBlock, _ int, in ssa.Instruction) {
-		call, ok := in.(ssa.CallInstruction)
-		if !ok {
-			return
+	dg := c.c14deepOf(e, gi)
+	var get []c14site
+	for _, s := range dg.calls(isBinary) {
+		if o := calleeObj(s.in.(ssa.CallInstruction)); o == e.getU64 {
+			get = append(get, s)
+		} else {
+			c.Violate(rule, fnName(gi)+"#byteorder", "GetInt decodes with "+o.FullName()+" instead of binary.BigEndian.Uint64", s.in.Pos())
 		}
-		if o := calleeObj(call); o != nil && o.Pkg() != nil && o.Pkg().Path() == "encoding/binary" {
-			if o == e.getU64 {
-				get = append(get, call)
-			} else {
-				c.Violate(rule, fnName(gi)+"#byteorder", "GetInt decodes with "+o.FullName()+" instead of binary.BigEndian.Uint64", call.Pos())
-			}
-		}
-	})
+	}
 	if c.Check(len(get) == 1, rule, fnName(gi)+"#Uint64", "exactly one binary.BigEndian.Uint64 call", "GetInt does not contain exactly one binary.BigEndian.Uint64 call", gi.Pos()) {
-		uses, unknown := e.c14bufUses(gi)
+		uses, unknown := dg.uses()
 		for _, u := range unknown {
 			c.Undecided(rule, fnName(gi)+"#buffer-escapes", "Message.buffer is used in a way the rule cannot classify", u.Pos())
 		}
-		var reads []c14bufUse
+		var reads []c14duse
 		for _, u := range uses {
 			if u.Kind == "consume" {
 				reads = append(reads, u)
@@ -235,32 +269,48 @@ func c14r1(c *Ctx) {
 		}
 		okR := len(reads) == 1 && reads[0].Method == "io.ReadFull"
 		var root ssa.Value
+		var rootFr *cxFrame
 		if okR {
-			r, n, _, isConst, full := c14sliceLen(reads[0].Arg)
-			root = r
+			rb := dg.num(reads[0].fr, reads[0].Arg)
+			r, n, _, isConst, full := c14sliceLen(rb.v)
+			root, rootFr = r, rb.fr
 			okR = full && isConst && n == 8 && n == sz
 		}
 		c.Check(okR, rule, fnName(gi)+"#read8", "the only buffer read is io.ReadFull of a whole 8-byte slice", "GetInt does not consume exactly 8 = IntSize bytes with one io.ReadFull", gi.Pos())
+		getCall := get[0].in.(ssa.CallInstruction)
 		if okR {
-			droot, _, _, _, dfull := c14sliceLen(get[0].Common().Args[1])
-			c.Check(dfull && droot == root, rule, fnName(gi)+"#decode-same-buf", "Uint64 decodes the bytes just read", "binary.BigEndian.Uint64 is not applied to the whole buffer filled by io.ReadFull", get[0].Pos())
-			succ, _, checked := callErrEdges(gi, reads[0].Call.Value())
-			if !checked {
+			db := dg.num(get[0].fr, getCall.Common().Args[1])
+			droot, _, _, _, dfull := c14sliceLen(db.v)
+			c.Check(dfull && droot == root && db.fr == rootFr, rule, fnName(gi)+"#decode-same-buf", "Uint64 decodes the bytes just read", "binary.BigEndian.Uint64 is not applied to the whole buffer filled by io.ReadFull", get[0].in.Pos())
+			rs := []c14site{{reads[0].fr, reads[0].Call}}
+			succE, whole := dg.succOf(rs)
+			if len(succE) == 0 && len(whole) == 0 {
 				c.Violate(rule, fnName(gi)+"#readfull-err", "the error of io.ReadFull is never tested", reads[0].Call.Pos())
 			} else {
-				c.mustPassInstr(rule, fnName(gi)+"#decode-after-read", gi, get[0], newCuts().AddEdges(succ...), "a nil-error io.ReadFull")
+				key := fnName(gi) + "#decode-after-read"
+				if p := dg.reach(cxEntry(dg.top), c14siteSet(get), whole, func(fr *cxFrame, ed Edge) bool { return succE[fr][ed] }); p != nil {
+					c.Violate(rule, key, "reachable without passing a nil-error io.ReadFull", get[0].in.Pos(), c.describePath(p)...)
+				} else {
+					c.Ok(rule, key, "every path to it passes a nil-error io.ReadFull", get[0].in.Pos())
+				}
 			}
 		}
 		for _, t := range c.c14successTargets(gi) {
-			c.Check(mustDepend(gi, t.Ret.Results[0], func(v ssa.Value) bool { return v == get[0].Value() }), rule, fnName(gi)+"#result", "the result is the decoded value", "a success return of GetInt does not return the value decoded by Uint64", t.Ret.Pos())
+			dep := false
+			if get[0].fr == dg.top {
+				dep = mustDepend(gi, t.Ret.Results[0], func(v ssa.Value) bool { return v == getCall.Value() })
+			} else {
+				dep = dg.mentionsDeep(dg.top, t.Ret.Results[0], func(f *cxFrame, v ssa.Value) bool { return f == get[0].fr && v == getCall.Value() })
+			}
+			c.Check(dep, rule, fnName(gi)+"#result", "the result is the decoded value", "a success return of GetInt does not return the value decoded by Uint64", t.Ret.Pos())
 		}
 	}
 
 	// --- delegation of the other integer codecs
 	api := c.c14discover(e)
-	c.MinCount(rule, "integer encoders (by signature)", len(api.enc), 4)
-	c.MinCount(rule, "integer decoders (by signature)", len(api.dec), 4)
-	c.MinCount(rule, "integer coders (by signature)", len(api.cod), 3)
+	c.MinCount(rule, "integer encoders (by signature)", len(api.enc), 2) // PutInt and at least one narrower/wider wrapper
+	c.MinCount(rule, "integer decoders (by signature)", len(api.dec), 2)
+	c.MinCount(rule, "integer coders (by signature)", len(api.cod), 1)
 	reaches := func(fn, base *ssa.Function, set []*ssa.Function) bool {
 		for i := 0; i < 6 && fn != nil; i++ {
 			if fn == base {
@@ -328,7 +378,7 @@ func c14r1(c *Ctx) {
 				continue
 			}
 			okT := types.Identical(pf.Signature.Params().At(1).Type(), elem) && types.Identical(gf.Signature.Results().At(0).Type(), elem)
-			okDir := c14dominatedByAny(fn, pc, e.c14dirEdges(fn, ev)) && c14dominatedByAny(fn, gc, e.c14dirEdges(fn, dv))
+			okDir := c.c14dirDominates(e, fn, pc, ev) && c.c14dirDominates(e, fn, gc, dv)
 			pargs := pc.Common().Args
 			ld, isLd := pargs[len(pargs)-1].(*ssa.UnOp)
 			okArg := isLd && ld.Op == token.MUL && ld.X == ssa.Value(c14lastParam(fn))
@@ -387,7 +437,7 @@ func c14r1(c *Ctx) {
 			}
 		})
 	}
-	c.whoMay(rule, "call encoding/binary in package message", users, poss, fnSet(pi, gi))
+	c.whoMayDeep(rule, "call encoding/binary in package message", users, poss, fnSet(pi, gi))
 	c.MinCount(rule, "encoding/binary call sites in package message", len(users), 2)
 }
 
@@ -430,15 +480,17 @@ func c14r2(c *Ctx) {
 			return nil, "delegation too deep"
 		}
 		if fn == e.putInt {
-			calls := callsIn(fn, e.putU64)
+			// PutUint64 may sit in PutInt or in an unexported helper it hands the value to
+			d := c.c14deepOf(e, fn, c.LookupFn("message", "(*Message).FlushFrame"))
+			calls := d.callsTo(e.putU64)
 			if len(calls) != 1 {
 				return nil, "no single PutUint64 call"
 			}
-			src, ch := c14convChain(calls[0].Common().Args[2])
-			if src != ssa.Value(c14lastParam(fn)) {
+			chains := d.convChains(calls[0].fr, calls[0].in.(ssa.CallInstruction).Common().Args[2])
+			if len(chains) != 1 || chains[0].src != (cxVal{d.top, ssa.Value(c14lastParam(fn))}) {
 				return nil, "the value handed to PutUint64 is not a pure conversion of the parameter"
 			}
-			return ch, ""
+			return chains[0].types, ""
 		}
 		call, to, n := c14delegate(fn, api.enc)
 		if n != 1 {
@@ -472,7 +524,7 @@ func c14r2(c *Ctx) {
 		}
 		report(fn, key, problem, "parameter is extended to 64 bits according to its own signedness")
 	}
-	c.MinCount(rule, "encoder chains", n, 4)
+	c.MinCount(rule, "encoder chains", n, 2)
 	// decode side
 	var decChain func(fn *ssa.Function, depth int) ([][]types.Type, string)
 	decChain = func(fn *ssa.Function, depth int) ([][]types.Type, string) {
@@ -482,12 +534,26 @@ func c14r2(c *Ctx) {
 		var from ssa.Value
 		var pre [][]types.Type
 		if fn == e.getInt {
-			calls := callsIn(fn, e.getU64)
+			// Uint64 may sit in GetInt or in an unexported value helper whose result GetInt converts
+			d := c.c14deepOf(e, fn)
+			calls := d.callsTo(e.getU64)
 			if len(calls) != 1 {
 				return nil, "no single Uint64 call"
 			}
-			from = calls[0].Value()
-			pre = [][]types.Type{{from.Type()}}
+			want := cxVal{calls[0].fr, calls[0].in.(ssa.Value)}
+			var out [][]types.Type
+			for _, t := range c.c14successTargets(fn) {
+				for _, ch := range d.convChains(d.top, t.Ret.Results[0]) {
+					if ch.src != want {
+						return nil, "a returned value is not a pure conversion of the decoded value"
+					}
+					out = append(out, ch.types)
+				}
+			}
+			if len(out) == 0 {
+				return nil, "no success return"
+			}
+			return out, ""
 		} else {
 			call, to, n := c14delegate(fn, api.dec)
 			if n != 1 {
@@ -532,7 +598,7 @@ func c14r2(c *Ctx) {
 		}
 		report(fn, key, problem, "the result is the low bits of the 64-bit wire value, never narrowed below the result type on the way")
 	}
-	c.MinCount(rule, "decoder chains", n, 4)
+	c.MinCount(rule, "decoder chains", n, 2)
 }
 
 // ---------------------------------------------------------------------------
@@ -562,83 +628,130 @@ func c14r3(c *Ctx) {
 		k, ok := v.(*ssa.Const)
 		return ok && k.Value != nil && constant.Compare(constant.ToFloat(k.Value), token.EQL, constant.ToFloat(fv))
 	}
-	c.Check(c.c14astUses(pd, frac) >= 1, rule, fnName(pd)+"#names-FracConst", "scales by the named constant FracConst", "PutDouble does not refer to the constant FracConst", pd.Pos())
-	c.Check(c.c14astUses(gd, frac) >= 1, rule, fnName(gd)+"#names-FracConst", "scales by the named constant FracConst", "GetDouble does not refer to the constant FracConst", gd.Pos())
+	var apiFns []*ssa.Function
+	api := c.c14discover(e)
+	apiFns = append(apiFns, api.enc...)
+	apiFns = append(apiFns, api.dec...)
+	dpd, dgd := c.c14deepOf(e, pd, apiFns...), c.c14deepOf(e, gd, apiFns...)
+	names := func(d *c14deep) bool { // the function, or a helper that does the arithmetic for it, names FracConst
+		for _, fr := range d.walk() {
+			if c.c14astUses(fr.fn, frac) >= 1 {
+				return true
+			}
+		}
+		return false
+	}
+	c.Check(names(dpd), rule, fnName(pd)+"#names-FracConst", "scales by the named constant FracConst", "PutDouble does not refer to the constant FracConst", pd.Pos())
+	c.Check(names(dgd), rule, fnName(gd)+"#names-FracConst", "scales by the named constant FracConst", "GetDouble does not refer to the constant FracConst", gd.Pos())
+	// order: the call behind whose nil-error edge the other lies is the first item on the wire
+	ordered := func(d *c14deep, calls []c14site) (first, second c14site, ok bool) {
+		try := func(a, b c14site) bool {
+			succE, whole := d.succOf([]c14site{a})
+			if len(succE) == 0 && len(whole) == 0 {
+				return false
+			}
+			return d.reach(cxEntry(d.top), map[c14site]bool{b: true}, whole, func(fr *cxFrame, ed Edge) bool { return succE[fr][ed] }) == nil
+		}
+		if try(calls[0], calls[1]) {
+			return calls[0], calls[1], true
+		}
+		if try(calls[1], calls[0]) {
+			return calls[1], calls[0], true
+		}
+		return calls[0], calls[1], false
+	}
+	lastArg := func(s c14site) ssa.Value {
+		a := s.in.(ssa.CallInstruction).Common().Args
+		return a[len(a)-1]
+	}
 
 	// --- encode
-	fx := callsIn(pd, frexp)
-	puts := callsIn(pd, pi32.Object())
+	fx := dpd.callsTo(frexp)
+	puts := dpd.callsTo(pi32.Object())
 	if c.Check(len(fx) == 1 && len(puts) == 2, rule, fnName(pd)+"#shape", "one Frexp and two PutInt32 calls", "PutDouble is not one math.Frexp followed by two PutInt32 calls", pd.Pos()) {
-		c.Check(fx[0].Common().Args[0] == ssa.Value(c14lastParam(pd)), rule, fnName(pd)+"#frexp-arg", "Frexp is applied to the parameter", "math.Frexp is not applied to PutDouble's parameter", fx[0].Pos())
-		fracV, expV := extractN(fx[0].Value(), 0), extractN(fx[0].Value(), 1)
-		isFracInt := func(v ssa.Value) bool { // int32(frac * FracConst)
-			cv, ok := v.(*ssa.Convert)
-			if !ok || !types.Identical(cv.Type(), types.Typ[types.Int32]) {
-				return false
+		fxCall := fx[0].in.(ssa.CallInstruction)
+		c.Check(dpd.num(fx[0].fr, fxCall.Common().Args[0]) == cxVal{dpd.top, ssa.Value(c14lastParam(pd))}, rule, fnName(pd)+"#frexp-arg", "Frexp is applied to the parameter", "math.Frexp is not applied to PutDouble's parameter", fx[0].in.Pos())
+		fracV, expV := extractN(fxCall.Value(), 0), extractN(fxCall.Value(), 1)
+		isFracInt := func(fr *cxFrame, v ssa.Value) bool { // int32(frac * FracConst)
+			ls := dpd.leaves(fr, v)
+			for _, l := range ls {
+				mul, ok := l.v.(*ssa.BinOp)
+				if !ok || mul.Op != token.MUL || l.fr != fx[0].fr || fracV == nil {
+					return false
+				}
+				if !((mul.X == fracV && isFrac(mul.Y)) || (mul.Y == fracV && isFrac(mul.X))) {
+					return false
+				}
 			}
-			mul, ok := cv.X.(*ssa.BinOp)
-			if !ok || mul.Op != token.MUL {
-				return false
+			return len(ls) > 0
+		}
+		isExpInt := func(fr *cxFrame, v ssa.Value) bool { // int32(exp)
+			ls := dpd.leaves(fr, v)
+			for _, l := range ls {
+				if l.fr != fx[0].fr || l.v != expV || expV == nil {
+					return false
+				}
 			}
-			return (mul.X == fracV && isFrac(mul.Y)) || (mul.Y == fracV && isFrac(mul.X))
+			return len(ls) > 0
 		}
-		isExpInt := func(v ssa.Value) bool { // int32(exp)
-			cv, ok := v.(*ssa.Convert)
-			return ok && types.Identical(cv.Type(), types.Typ[types.Int32]) && cv.X == expV && expV != nil
-		}
-		// order: the call that dominates the other (through its nil-error edge) is the first item on the wire
-		first, second := puts[0], puts[1]
-		s0, _, ch0 := callErrEdges(pd, first.Value())
-		if !ch0 || findPath(entryPoint(pd), Target{Instr: second}, newCuts().AddEdges(s0...)) != nil {
-			first, second = second, first
-			s0, _, ch0 = callErrEdges(pd, first.Value())
-		}
-		ordered := ch0 && findPath(entryPoint(pd), Target{Instr: second}, newCuts().AddEdges(s0...)) == nil
-		c.Check(ordered, rule, fnName(pd)+"#order", "the second item is written only after the first succeeded", "the two PutInt32 calls of PutDouble are not sequenced through the first one's nil-error edge", pd.Pos())
-		a1 := first.Common().Args[len(first.Common().Args)-1]
-		a2 := second.Common().Args[len(second.Common().Args)-1]
-		c.Check(fracV != nil && isFracInt(a1), rule, fnName(pd)+"#item1=fraction", "first item is int32(fraction*FracConst)", "the first integer PutDouble writes is not int32(frexp fraction * FracConst)", first.Pos())
-		c.Check(isExpInt(a2), rule, fnName(pd)+"#item2=exponent", "second item is int32(exponent)", "the second integer PutDouble writes is not int32(frexp exponent)", second.Pos())
+		first, second, okOrd := ordered(dpd, puts)
+		c.Check(okOrd, rule, fnName(pd)+"#order", "the second item is written only after the first succeeded", "the two PutInt32 calls of PutDouble are not sequenced through the first one's nil-error edge", pd.Pos())
+		c.Check(isFracInt(first.fr, lastArg(first)), rule, fnName(pd)+"#item1=fraction", "first item is int32(fraction*FracConst)", "the first integer PutDouble writes is not int32(frexp fraction * FracConst)", first.in.Pos())
+		c.Check(isExpInt(second.fr, lastArg(second)), rule, fnName(pd)+"#item2=exponent", "second item is int32(exponent)", "the second integer PutDouble writes is not int32(frexp exponent)", second.in.Pos())
 		// every success return follows both writes
-		cuts := newCuts()
-		s1, _, ch1 := callErrEdges(pd, second.Value())
-		if ch1 {
-			cuts.AddEdges(s1...)
-		} else {
-			cuts.AddInstrs(second) // "return m.PutInt32(...)": success of PutDouble is success of that call
-		}
-		c.mustPassReturns(rule, pd, c.c14successTargets(pd), cuts, "both PutInt32 calls")
+		succE, whole := dpd.succOf([]c14site{second})
+		c.c14mustPassReturnsDeep(rule, dpd, c.c14successTargets(pd), whole, func(fr *cxFrame, ed Edge) bool { return succE[fr][ed] }, "both PutInt32 calls")
 	}
 	// --- decode
-	gets := callsIn(gd, gi32.Object())
-	ld := callsIn(gd, ldexp)
+	gets := dgd.callsTo(gi32.Object())
+	ld := dgd.callsTo(ldexp)
 	if c.Check(len(gets) == 2 && len(ld) == 1, rule, fnName(gd)+"#shape", "two GetInt32 calls and one Ldexp", "GetDouble is not two GetInt32 calls followed by one math.Ldexp", gd.Pos()) {
-		first, second := gets[0], gets[1]
-		s0, _, ch0 := callErrEdges(gd, first.Value())
-		if !ch0 || findPath(entryPoint(gd), Target{Instr: second}, newCuts().AddEdges(s0...)) != nil {
-			first, second = second, first
-			s0, _, ch0 = callErrEdges(gd, first.Value())
-		}
-		ordered := ch0 && findPath(entryPoint(gd), Target{Instr: second}, newCuts().AddEdges(s0...)) == nil
-		c.Check(ordered, rule, fnName(gd)+"#order", "the second item is read only after the first succeeded", "the two GetInt32 calls of GetDouble are not sequenced through the first one's nil-error edge", gd.Pos())
-		v1, v2 := extractN(first.Value(), 0), extractN(second.Value(), 0)
-		args := ld[0].Common().Args
+		first, second, okOrd := ordered(dgd, gets)
+		c.Check(okOrd, rule, fnName(gd)+"#order", "the second item is read only after the first succeeded", "the two GetInt32 calls of GetDouble are not sequenced through the first one's nil-error edge", gd.Pos())
+		v1, v2 := cxVal{first.fr, extractN(first.in.(ssa.Value), 0)}, cxVal{second.fr, extractN(second.in.(ssa.Value), 0)}
+		ldCall := ld[0].in.(ssa.CallInstruction)
+		args := ldCall.Common().Args
 		okFrac := false
-		if q, ok := args[0].(*ssa.BinOp); ok && q.Op == token.QUO && isFrac(q.Y) {
-			src, _ := c14convChain(q.X)
-			okFrac = v1 != nil && src == v1
+		if ls := dgd.leaves(ld[0].fr, args[0]); len(ls) > 0 {
+			okFrac = true
+			for _, l := range ls {
+				q, ok := l.v.(*ssa.BinOp)
+				if !ok || q.Op != token.QUO || !isFrac(q.Y) {
+					okFrac = false
+					continue
+				}
+				for _, n := range dgd.leaves(l.fr, q.X) {
+					if v1.v == nil || n != v1 {
+						okFrac = false
+					}
+				}
+			}
 		}
-		srcE, _ := c14convChain(args[1])
-		c.Check(okFrac, rule, fnName(gd)+"#item1=fraction", "Ldexp's fraction is float64(first item)/FracConst", "the fraction given to math.Ldexp is not the first integer read divided by FracConst", ld[0].Pos())
-		c.Check(v2 != nil && srcE == v2, rule, fnName(gd)+"#item2=exponent", "Ldexp's exponent is the second item", "the exponent given to math.Ldexp is not the second integer read", ld[0].Pos())
-		s1, _, ch1 := callErrEdges(gd, second.Value())
-		if ch1 {
-			c.mustPassInstr(rule, fnName(gd)+"#ldexp-after-reads", gd, ld[0], newCuts().AddEdges(s1...), "both GetInt32 calls succeeding")
+		okExp := v2.v != nil
+		for _, l := range dgd.leaves(ld[0].fr, args[1]) {
+			if l != v2 {
+				okExp = false
+			}
+		}
+		c.Check(okFrac, rule, fnName(gd)+"#item1=fraction", "Ldexp's fraction is float64(first item)/FracConst", "the fraction given to math.Ldexp is not the first integer read divided by FracConst", ld[0].in.Pos())
+		c.Check(okExp, rule, fnName(gd)+"#item2=exponent", "Ldexp's exponent is the second item", "the exponent given to math.Ldexp is not the second integer read", ld[0].in.Pos())
+		succE, whole := dgd.succOf([]c14site{second})
+		if len(succE) == 0 && len(whole) == 0 {
+			c.Violate(rule, fnName(gd)+"#ldexp-after-reads", "the error of the second GetInt32 is never tested", second.in.Pos())
+		} else if p := dgd.reach(cxEntry(dgd.top), c14siteSet(ld), whole, func(fr *cxFrame, ed Edge) bool { return succE[fr][ed] }); p != nil {
+			c.Violate(rule, fnName(gd)+"#ldexp-after-reads", "reachable without passing both GetInt32 calls succeeding", ld[0].in.Pos(), c.describePath(p)...)
 		} else {
-			c.Violate(rule, fnName(gd)+"#ldexp-after-reads", "the error of the second GetInt32 is never tested", second.Pos())
+			c.Ok(rule, fnName(gd)+"#ldexp-after-reads", "every path to it passes both GetInt32 calls succeeding", ld[0].in.Pos())
 		}
 		for _, t := range c.c14successTargets(gd) {
-			c.Check(t.Ret.Results[0] == ld[0].Value(), rule, fnName(gd)+"#result", "returns Ldexp's value", "a success return of GetDouble does not return math.Ldexp's value", t.Ret.Pos())
+			okRes := true
+			ls := dgd.leaves(dgd.top, t.Ret.Results[0])
+			for _, l := range ls {
+				if l.fr != ld[0].fr || l.v != ldCall.Value() {
+					okRes = false
+				}
+			}
+			c.Check(okRes && len(ls) > 0, rule, fnName(gd)+"#result", "returns Ldexp's value", "a success return of GetDouble does not return math.Ldexp's value", t.Ret.Pos())
 		}
 	}
 	// --- float delegates
@@ -685,7 +798,7 @@ func c14r3(c *Ctx) {
 			c.Check(constant.Compare(q, token.EQL, constant.ToInt(fv)), rule, "doc:"+re.String(), "the protocol document quotes the same constant", "protocol/CEDAR_PROTOCOL.md quotes "+string(m[1])+" but the code's FracConst is "+fv.ExactString(), frac.Pos())
 		}
 	}
-	c.MinCount(rule, "quotations of the fraction constant in protocol/CEDAR_PROTOCOL.md", nq, 3)
+	c.MinCount(rule, "quotations of the fraction constant in protocol/CEDAR_PROTOCOL.md", nq, 1)
 }
 
 // ---------------------------------------------------------------------------
@@ -758,6 +871,287 @@ type c14sink struct {
 	kind string // "full" payload+NUL | "payload" | "nul" | "other"
 }
 
+// c14stringEncoder decides one string encoder (the function with the unexported helpers it calls spliced in).
+func (c *Ctx) c14stringEncoder(rule string, e *c14env, d *c14deep, idxFn *types.Func, putBytes *ssa.Function, encObjs []types.Object) {
+	fn := d.top.fn
+	par := cxVal{d.top, ssa.Value(c14lastParam(fn))}
+	isPar := func(fr *cxFrame, v ssa.Value) bool { return d.num(fr, v) == par }
+	// the single m.stream.IsEncrypted() invoke
+	encSites := d.calls(func(fr *cxFrame, call ssa.CallInstruction) bool {
+		if !call.Common().IsInvoke() || call.Common().Method != e.isEnc {
+			return false
+		}
+		base, ok := c14loadOf(call.Common().Value, e.msgStrm)
+		return ok && d.isRecv(fr, base)
+	})
+	if len(encSites) != 1 {
+		c.Violate(rule, fnName(fn)+"#IsEncrypted", "does not consult m.stream.IsEncrypted() exactly once", fn.Pos())
+		return
+	}
+	encT, encF := d.boolEdgesOf(encSites[0].fr, encSites[0].in.(ssa.Value))
+	// (1) truncation at the first NUL: bytes.IndexByte(param, 0), the cut param[:idx] behind the found edge, and
+	// the payload = the cut when found, else the parameter -- selected in place or by a value helper
+	var trunc cxVal
+	var cutPos token.Pos
+	nIdx, okIdx, haveCut := 0, false, false
+	for _, fr := range d.walk() {
+		for _, ic := range callsIn(fr.fn, idxFn) {
+			nIdx++
+			a := ic.Common().Args
+			k, isC := constInt(a[1])
+			if !isPar(fr, a[0]) || !isC || k != 0 {
+				continue
+			}
+			okIdx = true
+			found := c14foundEdges(fr.fn, ic.Value())
+			var notFound []Edge
+			for _, fe := range found {
+				notFound = append(notFound, Edge{fe.From, 1 - fe.Succ})
+			}
+			var cut *ssa.Slice
+			allInstrs(fr.fn, func(_ *ssa.BasicBlock, _ int, in ssa.Instruction) {
+				if sl, ok := in.(*ssa.Slice); ok && sl.High == ic.Value() && sl.Low == nil && isPar(fr, sl.X) {
+					cut = sl
+				}
+			})
+			if cut == nil || len(found) == 0 || !c14dominatedByAny(fr.fn, cut, found) {
+				continue
+			}
+			haveCut = true
+			cutPos = cut.Pos()
+			// in place: if idx >= 0 { v = v[:idx] }
+			for _, r := range *cut.Referrers() {
+				if phi, ok := r.(*ssa.Phi); ok && len(phi.Edges) == 2 {
+					if (isPar(fr, phi.Edges[0]) && phi.Edges[1] == ssa.Value(cut)) || (isPar(fr, phi.Edges[1]) && phi.Edges[0] == ssa.Value(cut)) {
+						if _, isRet := phiOnlyReturned(phi); !isRet || fr.up == nil {
+							trunc = cxVal{fr, phi}
+						}
+					}
+				}
+			}
+			// value helper: every return hands back the cut (found) or the parameter itself (behind a not-found edge)
+			if trunc.v == nil && fr.up != nil && fr.call != nil {
+				okRets, nCut := true, 0
+				for _, ret := range cxReturns(fr.fn) {
+					if len(ret.Results) == 0 {
+						okRets = false
+						continue
+					}
+					vals := []ssa.Value{ret.Results[0]}
+					preds := []*ssa.BasicBlock{nil}
+					if phi, ok := ret.Results[0].(*ssa.Phi); ok && phi.Block() == ret.Block() {
+						vals, preds = phi.Edges, ret.Block().Preds
+					}
+					for i, v := range vals {
+						switch {
+						case v == ssa.Value(cut):
+							nCut++
+						case isPar(fr, v):
+							if findPath(entryPoint(fr.fn), Target{Instr: ret, Pred: preds[i]}, newCuts().AddEdges(notFound...)) != nil {
+								okRets = false // the uncut value can be returned although a NUL was found
+							}
+						default:
+							okRets = false
+						}
+					}
+				}
+				if okRets && nCut > 0 {
+					if cv, ok := fr.call.(ssa.Value); ok {
+						trunc = cxVal{fr.up, cv}
+					}
+				}
+			}
+		}
+	}
+	if !c.Check(okIdx && nIdx == 1, rule, fnName(fn)+"#find-NUL", "searches the parameter for the first NUL", "does not search its parameter for the first NUL byte with bytes.IndexByte(., 0)", fn.Pos()) {
+		return
+	}
+	if trunc.v == nil {
+		if !haveCut {
+			c.Violate(rule, fnName(fn)+"#cut-at-NUL", "the parameter is never cut at the index of the first NUL", fn.Pos())
+		} else {
+			c.Undecided(rule, fnName(fn)+"#cut-at-NUL", "cannot follow how the NUL-truncated value is selected (expected: if idx >= 0 { v = v[:idx] }, in place or in a value helper)", cutPos)
+		}
+		return
+	}
+	c.Ok(rule, fnName(fn)+"#cut-at-NUL", "payload = parameter cut at the first NUL when one is present", cutPos)
+	isTrunc := func(fr *cxFrame, v ssa.Value) bool { return d.num(fr, v) == trunc }
+	isFull := func(fr *cxFrame, v ssa.Value) bool { // []byte(trunc + "\x00")
+		r := d.num(fr, v)
+		add, ok := r.v.(*ssa.BinOp)
+		if !ok || add.Op != token.ADD || !isTrunc(r.fr, add.X) {
+			return false
+		}
+		s, ok := constString(add.Y)
+		return ok && s == "\x00"
+	}
+	// (2) sinks
+	type sink struct {
+		c14site
+		kind string // "full" payload+NUL | "payload" | "nul" | "other"
+	}
+	var sinks []sink
+	classify := func(fr *cxFrame, call ssa.CallInstruction, arg ssa.Value, isByte bool) {
+		k := "other"
+		switch {
+		case isByte:
+			if v, ok := constInt(fr.resolve(arg).v); ok && v == 0 {
+				k = "nul"
+			}
+		case isFull(fr, arg):
+			k = "full"
+		case isTrunc(fr, arg):
+			k = "payload"
+		case c14isNulSlice(fr.resolve(arg).v):
+			k = "nul"
+		}
+		sinks = append(sinks, sink{c14site{fr, call}, k})
+	}
+	uses, unknown := d.uses()
+	for _, u := range unknown {
+		c.Undecided(rule, fnName(fn)+"#buffer-escapes", "Message.buffer is used in a way the rule cannot classify", u.Pos())
+	}
+	for _, u := range uses {
+		switch {
+		case u.Kind == "write" && (u.Method == "Write" || u.Method == "WriteString"):
+			classify(u.fr, u.Call, u.Arg, false)
+		case u.Kind == "write" && u.Method == "WriteByte":
+			classify(u.fr, u.Call, u.Arg, true)
+		case u.Kind == "peek":
+		default:
+			sinks = append(sinks, sink{c14site{u.fr, u.Call}, "other"})
+		}
+	}
+	for _, s := range d.calls(func(_ *cxFrame, call ssa.CallInstruction) bool { return calleeFn(call) == putBytes }) {
+		a := s.in.(ssa.CallInstruction).Common().Args
+		classify(s.fr, s.in.(ssa.CallInstruction), a[len(a)-1], false)
+	}
+	term, pay, all := map[c14site]bool{}, map[c14site]bool{}, map[c14site]bool{}
+	nOther := 0
+	for _, s := range sinks {
+		all[s.c14site] = true
+		switch s.kind {
+		case "full":
+			term[s.c14site], pay[s.c14site] = true, true
+		case "nul":
+			term[s.c14site] = true
+		case "payload":
+			pay[s.c14site] = true
+		default:
+			nOther++
+			c.Violate(rule, fnName(fn)+"#sink", "writes bytes that are neither the NUL-truncated payload nor the single NUL terminator", s.in.Pos())
+		}
+	}
+	if nOther == 0 {
+		c.Ok(rule, fnName(fn)+"#sink", "every byte written is the truncated payload or the terminator", fn.Pos())
+	}
+	c.MinCount(rule, "payload sinks in "+fnName(fn), len(pay), 1)
+	// every success return follows a payload and then a terminator
+	c.c14mustPassReturnsDeep(rule, d, c.c14successTargets(fn), term, nil, "the write of the NUL terminator")
+	okOne, okPayFirst := true, true
+	for _, s := range sinks {
+		if s.kind == "full" || s.kind == "nul" {
+			// exactly one: nothing more is written after the terminator
+			if d.reach(cxAfter(s.fr, s.in), all, nil, nil) != nil {
+				okOne = false
+			}
+		}
+		if s.kind == "nul" {
+			// the terminator follows the payload
+			if d.reach(cxEntry(d.top), map[c14site]bool{s.c14site: true}, pay, nil) != nil {
+				okPayFirst = false
+			}
+		}
+	}
+	c.Check(okOne, rule, fnName(fn)+"#one-terminator", "nothing is written after the terminator", "bytes can be written after the NUL terminator (more than one terminator, or payload after it)", fn.Pos())
+	c.Check(okPayFirst, rule, fnName(fn)+"#payload-before-terminator", "the terminator follows the payload", "the NUL terminator can be written without the payload before it", fn.Pos())
+	// (3) length prefix iff encrypted
+	pre := d.callsTo(encObjs...)
+	c.MinCount(rule, "length-prefix writes in "+fnName(fn), len(pre), 1)
+	succE, whole := d.succOf(pre)
+	for _, p := range pre {
+		one := map[c14site]bool{p: true}
+		c.Check(d.reach(cxEntry(d.top), one, nil, encT) == nil, rule, fnName(fn)+"#prefix-only-if-encrypted", "the length prefix is written only when IsEncrypted()", "a length prefix is written on a path where IsEncrypted() is not known true", p.in.Pos())
+		a := p.in.(ssa.CallInstruction).Common().Args
+		v := d.num(p.fr, a[len(a)-1])
+		okLen := false
+		if call, ok := v.v.(*ssa.Call); ok { // len([]byte(trunc+"\x00"))
+			if b, ok := call.Call.Value.(*ssa.Builtin); ok && b.Name() == "len" && isFull(v.fr, call.Call.Args[0]) {
+				okLen = true
+			}
+		}
+		if add, ok := v.v.(*ssa.BinOp); ok && add.Op == token.ADD { // len(trunc)+1
+			x, y := add.X, add.Y
+			if _, isC := constInt(x); isC {
+				x, y = y, x
+			}
+			if k, isC := constInt(y); isC && k == 1 {
+				if call, ok := x.(*ssa.Call); ok {
+					if b, ok := call.Call.Value.(*ssa.Builtin); ok && b.Name() == "len" && isTrunc(v.fr, call.Call.Args[0]) {
+						okLen = true
+					}
+				}
+			}
+		}
+		c.Check(okLen, rule, fnName(fn)+"#prefix-value", "the prefix is the payload length plus the terminator", "the length prefix is not len(payload)+1", p.in.Pos())
+	}
+	cutE := func(fr *cxFrame, ed Edge) bool { return encF(fr, ed) || succE[fr][ed] }
+	if p := d.reach(cxEntry(d.top), pay, whole, cutE); p != nil {
+		c.Violate(rule, fnName(fn)+"#prefix-if-encrypted", "the payload can be written on an encrypted stream without the length prefix", fn.Pos(), c.describePath(p)...)
+	} else {
+		c.Ok(rule, fnName(fn)+"#prefix-if-encrypted", "every path to a payload write passes the prefix write or a not-encrypted edge", fn.Pos())
+	}
+}
+
+// phiOnlyReturned: every use of phi is a Return (the phi is the function's result, not a local payload value).
+func phiOnlyReturned(phi *ssa.Phi) (*ssa.Return, bool) {
+	var ret *ssa.Return
+	refs := phi.Referrers()
+	if refs == nil {
+		return nil, false
+	}
+	n := 0
+	for _, r := range *refs {
+		switch x := r.(type) {
+		case *ssa.DebugRef:
+		case *ssa.Return:
+			ret = x
+			n++
+		default:
+			return nil, false
+		}
+	}
+	return ret, n > 0
+}
+
+// c14mustPassReturnsDeep is mustPassReturns over the spliced control flow: one obligation per return of the
+// anchored function.
+func (c *Ctx) c14mustPassReturnsDeep(rule string, d *c14deep, targets []RetPoint, cutSites map[c14site]bool, cutEdge func(*cxFrame, Edge) bool, what string) bool {
+	fn := d.top.fn
+	okAll := true
+	grouped := map[int][]RetPoint{}
+	var ords []int
+	for _, t := range targets {
+		o := retOrdinal(fn, t.Ret)
+		if _, ok := grouped[o]; !ok {
+			ords = append(ords, o)
+		}
+		grouped[o] = append(grouped[o], t)
+	}
+	sort.Ints(ords)
+	for _, o := range ords {
+		construct := fnName(fn) + "#return" + strconv.Itoa(o)
+		pos := grouped[o][0].Ret.Pos()
+		if wit := d.reachRet(cxEntry(d.top), grouped[o], cutSites, cutEdge); wit != nil {
+			okAll = false
+			c.Violate(rule, construct, "a path reaches this return without passing "+what, pos, c.describePath(wit)...)
+		} else {
+			c.Ok(rule, construct, "every path to this return passes "+what, pos)
+		}
+	}
+	return okAll
+}
+
 func c14r4(c *Ctx) {
 	const rule = "C14-R4"
 	c.Doc(rule, "PutString and PutStringBytes (siblings): the payload is the parameter cut at the first NUL (bytes.IndexByte(.,0)), exactly one NUL follows it on every success path, the int32 length prefix (payload length + 1) is written iff the stream's IsEncrypted() is true; GetString, GetStringWithMaxSize and SkipString read the prefix iff IsEncrypted() is true, consume that many bytes, otherwise scan byte-wise to the NUL; both string decoders compare byte 0 with the constant BinNullChar")
@@ -777,21 +1171,6 @@ func c14r4(c *Ctx) {
 	for _, f := range api.dec {
 		decObjs = append(decObjs, f.Object())
 	}
-	encCall := func(fn *ssa.Function) ssa.CallInstruction { // the single m.stream.IsEncrypted() invoke
-		var out []ssa.CallInstruction
-		allInstrs(fn, func(_ *ssa.BasicBlock, _ int, in ssa.Instruction) {
-			if call, ok := in.(ssa.CallInstruction); ok && call.Common().IsInvoke() && call.Common().Method == e.isEnc {
-				if _, ok := c14loadOf(call.Common().Value, e.msgStrm); ok {
-					out = append(out, call)
-				}
-			}
-		})
-		if len(out) != 1 {
-			return nil
-		}
-		return out[0]
-	}
-
 	// ---------------- encoders
 	// The string codecs are discovered, not listed: the functions of package message that consult
 	// m.stream.IsEncrypted(); those that consume the buffer are decoders, the others encoders. The public
@@ -844,282 +1223,153 @@ func c14r4(c *Ctx) {
 		}
 		c.Check(ok, rule, fnName(fn)+"#is-string-codec", "is, or delegates to, a codec that consults IsEncrypted()", "this string entry point neither consults m.stream.IsEncrypted() nor delegates (single call, no own buffer access) to a function that does", fn.Pos())
 	}
+	var apiFns []*ssa.Function
+	apiFns = append(apiFns, api.enc...)
+	apiFns = append(apiFns, api.dec...)
+	apiFns = append(apiFns, api.cod...)
+	apiFns = append(apiFns, putBytes, c.LookupFn("message", "(*Message).FlushFrame"))
 	nEnc := 0
 	for _, fn := range strEnc {
 		nEnc++
-		par := ssa.Value(c14lastParam(fn))
-		ec := encCall(fn)
-		if ec == nil {
-			c.Violate(rule, fnName(fn)+"#IsEncrypted", "does not consult m.stream.IsEncrypted() exactly once", fn.Pos())
-			continue
-		}
-		encT, encF := boolEdges(fn, ec.Value())
-		// (1) truncation at the first NUL
-		var trunc ssa.Value
-		idx := callsIn(fn, idxFn)
-		okIdx := len(idx) == 1
-		if okIdx {
-			a := idx[0].Common().Args
-			k, isC := constInt(a[1])
-			okIdx = c14stripNum(a[0]) == par && isC && k == 0
-		}
-		if !c.Check(okIdx, rule, fnName(fn)+"#find-NUL", "searches the parameter for the first NUL", "does not search its parameter for the first NUL byte with bytes.IndexByte(., 0)", fn.Pos()) {
-			continue
-		}
-		found := c14foundEdges(fn, idx[0].Value())
-		var cut *ssa.Slice
-		allInstrs(fn, func(_ *ssa.BasicBlock, _ int, in ssa.Instruction) {
-			if sl, ok := in.(*ssa.Slice); ok && sl.High == idx[0].Value() && sl.Low == nil && c14stripNum(sl.X) == par {
-				cut = sl
-			}
-		})
-		okCut := cut != nil && len(found) > 0 && c14dominatedByAny(fn, cut, found)
-		if okCut {
-			for _, r := range *cut.Referrers() {
-				if phi, ok := r.(*ssa.Phi); ok && len(phi.Edges) == 2 {
-					if (phi.Edges[0] == par && phi.Edges[1] == ssa.Value(cut)) || (phi.Edges[1] == par && phi.Edges[0] == ssa.Value(cut)) {
-						// the cut value must flow in from the "found" side: the other edge's predecessor must not be dominated by it
-						trunc = phi
-					}
-				}
-			}
-		}
-		if trunc == nil {
-			if cut == nil {
-				c.Violate(rule, fnName(fn)+"#cut-at-NUL", "the parameter is never cut at the index of the first NUL", fn.Pos())
-			} else {
-				c.Undecided(rule, fnName(fn)+"#cut-at-NUL", "cannot follow how the NUL-truncated value is selected (expected: if idx >= 0 { v = v[:idx] })", cut.Pos())
-			}
-			continue
-		}
-		c.Ok(rule, fnName(fn)+"#cut-at-NUL", "payload = parameter cut at the first NUL when one is present", cut.Pos())
-		// (2) sinks
-		isFull := func(v ssa.Value) bool { // []byte(trunc + "\x00")
-			add, ok := c14stripNum(v).(*ssa.BinOp)
-			if !ok || add.Op != token.ADD || add.X != trunc {
-				return false
-			}
-			s, ok := constString(add.Y)
-			return ok && s == "\x00"
-		}
-		var sinks []c14sink
-		classify := func(call ssa.CallInstruction, arg ssa.Value, isByte bool) {
-			k := "other"
-			switch {
-			case isByte:
-				if v, ok := constInt(arg); ok && v == 0 {
-					k = "nul"
-				}
-			case isFull(arg):
-				k = "full"
-			case c14stripNum(arg) == trunc:
-				k = "payload"
-			case c14isNulSlice(arg):
-				k = "nul"
-			}
-			sinks = append(sinks, c14sink{call, k})
-		}
-		uses, unknown := e.c14bufUses(fn)
-		for _, u := range unknown {
-			c.Undecided(rule, fnName(fn)+"#buffer-escapes", "Message.buffer is used in a way the rule cannot classify", u.Pos())
-		}
-		for _, u := range uses {
-			switch {
-			case u.Kind == "write" && (u.Method == "Write" || u.Method == "WriteString"):
-				classify(u.Call, u.Arg, false)
-			case u.Kind == "write" && u.Method == "WriteByte":
-				classify(u.Call, u.Arg, true)
-			case u.Kind == "peek":
-			default:
-				sinks = append(sinks, c14sink{u.Call, "other"})
-			}
-		}
-		for _, call := range callsIn(fn, putBytes.Object()) {
-			a := call.Common().Args
-			classify(call, a[len(a)-1], false)
-		}
-		var term, pay []ssa.Instruction
-		nOther := 0
-		for _, s := range sinks {
-			switch s.kind {
-			case "full":
-				term = append(term, s.call)
-				pay = append(pay, s.call)
-			case "nul":
-				term = append(term, s.call)
-			case "payload":
-				pay = append(pay, s.call)
-			default:
-				nOther++
-				c.Violate(rule, fnName(fn)+"#sink", "writes bytes that are neither the NUL-truncated payload nor the single NUL terminator", s.call.Pos())
-			}
-		}
-		if nOther == 0 {
-			c.Ok(rule, fnName(fn)+"#sink", "every byte written is the truncated payload or the terminator", fn.Pos())
-		}
-		c.MinCount(rule, "payload sinks in "+fnName(fn), len(pay), 2)
-		// every success return follows a payload and then a terminator
-		c.mustPassReturns(rule, fn, c.c14successTargets(fn), newCuts().AddInstrs(term...), "the write of the NUL terminator")
-		okOne, okPayFirst := true, true
-		for _, s := range sinks {
-			if s.kind == "full" || s.kind == "nul" {
-				// exactly one: nothing more is written after the terminator
-				for _, o := range sinks {
-					if findPath(after(s.call), Target{Instr: o.call}, nil) != nil {
-						okOne = false
-					}
-				}
-			}
-			if s.kind == "nul" {
-				// the terminator follows the payload
-				if findPath(entryPoint(fn), Target{Instr: s.call}, newCuts().AddInstrs(pay...)) != nil {
-					okPayFirst = false
-				}
-			}
-		}
-		c.Check(okOne, rule, fnName(fn)+"#one-terminator", "nothing is written after the terminator", "bytes can be written after the NUL terminator (more than one terminator, or payload after it)", fn.Pos())
-		c.Check(okPayFirst, rule, fnName(fn)+"#payload-before-terminator", "the terminator follows the payload", "the NUL terminator can be written without the payload before it", fn.Pos())
-		// (3) length prefix iff encrypted
-		pre := callsIn(fn, encObjs...)
-		c.MinCount(rule, "length-prefix writes in "+fnName(fn), len(pre), 2)
-		cuts := newCuts().AddEdges(encF...)
-		for _, p := range pre {
-			c.Check(c14dominatedByAny(fn, p, encT), rule, fnName(fn)+"#prefix-only-if-encrypted", "the length prefix is written only when IsEncrypted()", "a length prefix is written on a path where IsEncrypted() is not known true", p.Pos())
-			a := p.Common().Args
-			v := c14stripNum(a[len(a)-1])
-			okLen := false
-			if call, ok := v.(*ssa.Call); ok { // len([]byte(trunc+"\x00"))
-				if b, ok := call.Call.Value.(*ssa.Builtin); ok && b.Name() == "len" && isFull(call.Call.Args[0]) {
-					okLen = true
-				}
-			}
-			if add, ok := v.(*ssa.BinOp); ok && add.Op == token.ADD { // len(trunc)+1
-				x, y := add.X, add.Y
-				if _, isC := constInt(x); isC {
-					x, y = y, x
-				}
-				if k, isC := constInt(y); isC && k == 1 {
-					if call, ok := x.(*ssa.Call); ok {
-						if b, ok := call.Call.Value.(*ssa.Builtin); ok && b.Name() == "len" && c14stripNum(call.Call.Args[0]) == trunc {
-							okLen = true
-						}
-					}
-				}
-			}
-			c.Check(okLen, rule, fnName(fn)+"#prefix-value", "the prefix is the payload length plus the terminator", "the length prefix is not len(payload)+1", p.Pos())
-			if succ, _, checked := callErrEdges(fn, p.Value()); checked {
-				cuts.AddEdges(succ...)
-			}
-		}
-		okPre := true
-		for _, s := range pay {
-			if p := findPath(entryPoint(fn), Target{Instr: s}, cuts); p != nil {
-				okPre = false
-				c.Violate(rule, fnName(fn)+"#prefix-if-encrypted", "the payload can be written on an encrypted stream without the length prefix", s.Pos(), c.describePath(p)...)
-				break
-			}
-		}
-		if okPre {
-			c.Ok(rule, fnName(fn)+"#prefix-if-encrypted", "every path to a payload write passes the prefix write or a not-encrypted edge", fn.Pos())
-		}
+		c.c14stringEncoder(rule, e, c.c14deepOf(e, fn, apiFns...), idxFn, putBytes, encObjs)
 	}
-	c.MinCount(rule, "string encoders", nEnc, 2)
+	c.MinCount(rule, "string encoders", nEnc, 1)
 
 	// ---------------- decoders
-	nullV, _ := constant.Int64Val(constant.ToInt(c14constVal(nullC)))
 	nDec := 0
 	for _, fn := range strDec {
 		nDec++
-		ec := encCall(fn)
-		if ec == nil {
-			c.Violate(rule, fnName(fn)+"#IsEncrypted", "does not consult m.stream.IsEncrypted() exactly once", fn.Pos())
-			continue
+		c.c14stringDecoder(rule, e, c.c14deepOf(e, fn, apiFns...), cons, decObjs, nullC)
+	}
+	c.MinCount(rule, "string decoders", nDec, 1)
+}
+
+// c14stringDecoder decides one string decoder (the function with the unexported helpers it calls spliced in).
+func (c *Ctx) c14stringDecoder(rule string, e *c14env, d *c14deep, cons map[*ssa.Function]bool, decObjs []types.Object, nullC types.Object) {
+	fn := d.top.fn
+	nullV, _ := constant.Int64Val(constant.ToInt(c14constVal(nullC)))
+	encSites := d.calls(func(fr *cxFrame, call ssa.CallInstruction) bool {
+		if !call.Common().IsInvoke() || call.Common().Method != e.isEnc {
+			return false
 		}
-		encT, encF := boolEdges(fn, ec.Value())
-		pre := callsIn(fn, decObjs...)
-		if !c.Check(len(pre) >= 1, rule, fnName(fn)+"#reads-prefix", "reads a length prefix", "never reads the length prefix", fn.Pos()) {
-			continue
+		base, ok := c14loadOf(call.Common().Value, e.msgStrm)
+		return ok && d.isRecv(fr, base)
+	})
+	if len(encSites) != 1 {
+		c.Violate(rule, fnName(fn)+"#IsEncrypted", "does not consult m.stream.IsEncrypted() exactly once", fn.Pos())
+		return
+	}
+	ec := encSites[0]
+	encT, encF := d.boolEdgesOf(ec.fr, ec.in.(ssa.Value))
+	onlyEnc := func(s c14site) bool { // reached only when IsEncrypted() is known true
+		return d.reach(cxEntry(d.top), map[c14site]bool{s: true}, nil, encT) == nil
+	}
+	// prefix reads (found before the consumers that are handed the announced length are made units)
+	pre := d.callsTo(decObjs...)
+	if !c.Check(len(pre) >= 1, rule, fnName(fn)+"#reads-prefix", "reads a length prefix", "never reads the length prefix", fn.Pos()) {
+		return
+	}
+	var preVals []cxVal
+	for _, p := range pre {
+		c.Check(onlyEnc(p), rule, fnName(fn)+"#prefix-only-if-encrypted", "the prefix is read only when IsEncrypted()", "a length prefix is read on a path where IsEncrypted() is not known true", p.in.Pos())
+		if v := extractN(p.in.(ssa.Value), 0); v != nil {
+			preVals = append(preVals, cxVal{p.fr, v})
 		}
-		cuts := newCuts().AddEdges(encF...)
-		var preVals []ssa.Value
-		for _, p := range pre {
-			c.Check(c14dominatedByAny(fn, p, encT), rule, fnName(fn)+"#prefix-only-if-encrypted", "the prefix is read only when IsEncrypted()", "a length prefix is read on a path where IsEncrypted() is not known true", p.Pos())
-			if succ, _, checked := callErrEdges(fn, p.Value()); checked {
-				cuts.AddEdges(succ...)
-			}
-			if v := extractN(p.Value(), 0); v != nil {
-				preVals = append(preVals, v)
-			}
-		}
-		okPre := true
-		for _, t := range c.c14successTargets(fn) {
-			if p := findPath(after(ec), t.Target(), cuts); p != nil {
-				okPre = false
-				c.Violate(rule, fnName(fn)+"#prefix-if-encrypted", "a string can be decoded on an encrypted stream without reading the length prefix", t.Ret.Pos(), c.describePath(p)...)
-				break
-			}
-		}
-		if okPre {
-			c.Ok(rule, fnName(fn)+"#prefix-if-encrypted", "after IsEncrypted() every success return passes the prefix read or a not-encrypted edge", fn.Pos())
-		}
-		// the encrypted side consumes the announced number of bytes; the plain side scans to the NUL
-		uses, _ := e.c14bufUses(fn)
-		bulk, scan := false, false
-		var filled []ssa.Value
-		mentionsPre := func(v ssa.Value) bool {
-			return v != nil && mentions(v, func(x ssa.Value) bool {
-				for _, pv := range preVals {
-					if x == pv {
-						return true
-					}
+	}
+	mentionsPre := func(fr *cxFrame, v ssa.Value) bool {
+		return v != nil && d.mentionsDeep(fr, v, func(f *cxFrame, x ssa.Value) bool {
+			for _, pv := range preVals {
+				if f == pv.fr && x == pv.v {
+					return true
 				}
-				return false
-			})
+			}
+			return false
+		})
+	}
+	// a consumer of the package that is handed the announced length stays a unit (discard, GetBytes)
+	d.frames = nil
+	d.unitCall = func(fr *cxFrame, call ssa.CallInstruction) bool {
+		g := calleeFn(call)
+		if g == nil || !cons[g] {
+			return false
 		}
-		for _, u := range uses {
-			if u.Kind != "consume" {
+		a := call.Common().Args
+		if len(a) == 0 {
+			return false
+		}
+		// the announced length itself (a count), not a buffer of that size
+		if b, ok := a[len(a)-1].Type().Underlying().(*types.Basic); !ok || b.Info()&types.IsInteger == 0 {
+			return false
+		}
+		return mentionsPre(fr, a[len(a)-1])
+	}
+	succE, whole := d.succOf(pre)
+	cutE := func(fr *cxFrame, ed Edge) bool { return encF(fr, ed) || succE[fr][ed] }
+	if p := d.reachRet(cxAfter(ec.fr, ec.in), c.c14successTargets(fn), whole, cutE); p != nil {
+		c.Violate(rule, fnName(fn)+"#prefix-if-encrypted", "a string can be decoded on an encrypted stream without reading the length prefix", fn.Pos(), c.describePath(p)...)
+	} else {
+		c.Ok(rule, fnName(fn)+"#prefix-if-encrypted", "after IsEncrypted() every success return passes the prefix read or a not-encrypted edge", fn.Pos())
+	}
+	// the encrypted side consumes the announced number of bytes; the plain side scans to the NUL
+	uses, _ := d.uses()
+	bulk, scan := false, false
+	var filled []cxVal // the buffers the announced bytes are read into
+	for _, u := range uses {
+		if u.Kind != "consume" {
+			continue
+		}
+		site := c14site{u.fr, u.Call}
+		switch u.Method {
+		case "io.ReadFull":
+			arg := d.num(u.fr, u.Arg)
+			root, _, lenV, isConst, full := c14sliceLen(arg.v)
+			if full && !isConst && mentionsPre(arg.fr, lenV) && onlyEnc(site) {
+				bulk = true
+				filled = append(filled, cxVal{arg.fr, root})
+			}
+		case "ReadByte":
+			b := extractN(u.Call.Value(), 0)
+			if b == nil || onlyEnc(site) {
 				continue
 			}
-			switch u.Method {
-			case "io.ReadFull":
-				root, _, lenV, isConst, full := c14sliceLen(u.Arg)
-				if full && !isConst && mentionsPre(lenV) && c14dominatedByAny(fn, u.Call, encT) {
-					bulk = true
-					filled = append(filled, root)
-				}
-			case "ReadByte":
-				b := extractN(u.Call.Value(), 0)
-				if b == nil || c14dominatedByAny(fn, u.Call, encT) {
-					continue
-				}
-				for _, r := range *b.Referrers() {
-					if cmp, ok := r.(*ssa.BinOp); ok && (cmp.Op == token.EQL || cmp.Op == token.NEQ) {
-						if k, ok := constInt(cmp.Y); ok && k == 0 {
-							scan = true
-						}
+			for _, r := range *b.Referrers() {
+				if cmp, ok := r.(*ssa.BinOp); ok && (cmp.Op == token.EQL || cmp.Op == token.NEQ) {
+					if k, ok := constInt(cmp.Y); ok && k == 0 {
+						scan = true
 					}
 				}
 			}
 		}
-		// ... or hands the announced length to another consumer of the package (discard, GetBytes)
-		allInstrs(fn, func(_ *ssa.BasicBlock, _ int, in ssa.Instruction) {
-			d, ok := in.(ssa.CallInstruction)
-			if !ok || !cons[calleeFn(d)] || calleeFn(d) == nil {
-				return
-			}
-			a := d.Common().Args
-			if len(a) > 0 && mentionsPre(a[len(a)-1]) && c14dominatedByAny(fn, d, encT) {
-				bulk = true
-			}
-		})
-		c.Check(bulk, rule, fnName(fn)+"#consumes-announced-length", "on an encrypted stream consumes the number of bytes the prefix announces", "on an encrypted stream the bytes consumed do not depend on the length prefix", fn.Pos())
-		c.Check(scan, rule, fnName(fn)+"#scans-to-NUL", "on a plain stream reads byte-wise up to the NUL", "on a plain stream no byte read is compared with the NUL terminator", fn.Pos())
-		// null marker
-		if r := fn.Signature.Results(); r.Len() == 0 || !types.Identical(r.At(0).Type(), types.Typ[types.String]) {
-			continue // does not return the string (skips / matches it): the marker is irrelevant
+	}
+	// ... or hands the announced length to another consumer of the package (discard, GetBytes)
+	for _, s := range d.calls(func(fr *cxFrame, call ssa.CallInstruction) bool { return d.unitCall(fr, call) }) {
+		if onlyEnc(s) {
+			bulk = true
 		}
-		okMarker := false
-		allInstrs(fn, func(_ *ssa.BasicBlock, _ int, in ssa.Instruction) {
+	}
+	c.Check(bulk, rule, fnName(fn)+"#consumes-announced-length", "on an encrypted stream consumes the number of bytes the prefix announces", "on an encrypted stream the bytes consumed do not depend on the length prefix", fn.Pos())
+	c.Check(scan, rule, fnName(fn)+"#scans-to-NUL", "on a plain stream reads byte-wise up to the NUL", "on a plain stream no byte read is compared with the NUL terminator", fn.Pos())
+	// null marker
+	if r := fn.Signature.Results(); r.Len() == 0 || !types.Identical(r.At(0).Type(), types.Typ[types.String]) {
+		return // does not return the string (skips / matches it): the marker is irrelevant
+	}
+	inFilled := func(fr *cxFrame, v ssa.Value) bool {
+		r := fr.resolve(memRoot(v))
+		root := memRoot(r.v)
+		for _, f := range filled {
+			if r.fr == f.fr && root == f.v {
+				return true
+			}
+		}
+		return false
+	}
+	okMarker, namesMarker := false, false
+	okStrip := false
+	for _, fr := range d.walk() {
+		if c.c14astUses(fr.fn, nullC) >= 1 {
+			namesMarker = true
+		}
+		allInstrs(fr.fn, func(_ *ssa.BasicBlock, _ int, in ssa.Instruction) {
 			cmp, ok := in.(*ssa.BinOp)
 			if !ok || cmp.Op != token.EQL {
 				return
@@ -1136,21 +1386,11 @@ func c14r4(c *Ctx) {
 			if i, ok := constInt(ia.Index); !ok || i != 0 {
 				return
 			}
-			for _, f := range filled {
-				if memRoot(ia.X) == f {
-					okMarker = true
-				}
+			if inFilled(fr, ia.X) {
+				okMarker = true
 			}
 		})
 		// the single trailing NUL the encoder appended is stripped: if data[len-1] == 0 { data = data[:len-1] }
-		inFilled := func(v ssa.Value) bool {
-			for _, f := range filled {
-				if memRoot(v) == f {
-					return true
-				}
-			}
-			return false
-		}
 		isLenMinus1 := func(v ssa.Value) bool {
 			sub, ok := v.(*ssa.BinOp)
 			if !ok || sub.Op != token.SUB {
@@ -1164,10 +1404,10 @@ func c14r4(c *Ctx) {
 				return false
 			}
 			b, ok := l.Call.Value.(*ssa.Builtin)
-			return ok && b.Name() == "len" && inFilled(l.Call.Args[0])
+			return ok && b.Name() == "len" && inFilled(fr, l.Call.Args[0])
 		}
 		var lastIsNUL []Edge
-		for _, b := range fn.Blocks {
+		for _, b := range fr.fn.Blocks {
 			ifi := blockIf(b)
 			if ifi == nil {
 				continue
@@ -1182,7 +1422,7 @@ func c14r4(c *Ctx) {
 				continue
 			}
 			ia, ok := ld.X.(*ssa.IndexAddr)
-			if !ok || !inFilled(ia.X) || !isLenMinus1(ia.Index) {
+			if !ok || !inFilled(fr, ia.X) || !isLenMinus1(ia.Index) {
 				continue
 			}
 			eq := a.Op == token.EQL
@@ -1195,22 +1435,20 @@ func c14r4(c *Ctx) {
 				lastIsNUL = append(lastIsNUL, Edge{b, 1})
 			}
 		}
-		okStrip := false
-		allInstrs(fn, func(_ *ssa.BasicBlock, _ int, in ssa.Instruction) {
+		allInstrs(fr.fn, func(_ *ssa.BasicBlock, _ int, in ssa.Instruction) {
 			sl, ok := in.(*ssa.Slice)
-			if !ok || sl.Low != nil || sl.High == nil || !inFilled(sl.X) || !isLenMinus1(sl.High) || !c14dominatedByAny(fn, sl, lastIsNUL) {
+			if !ok || sl.Low != nil || sl.High == nil || !inFilled(fr, sl.X) || !isLenMinus1(sl.High) || !c14dominatedByAny(fr.fn, sl, lastIsNUL) {
 				return
 			}
 			for _, t := range c.c14successTargets(fn) {
-				if mentionsValue(t.Ret.Results[0], sl) {
+				if d.mentionsDeep(d.top, t.Ret.Results[0], func(f *cxFrame, x ssa.Value) bool { return f == fr && x == ssa.Value(sl) }) {
 					okStrip = true
 				}
 			}
 		})
-		c.Check(okStrip, rule, fnName(fn)+"#strips-terminator", "on an encrypted stream the trailing NUL is removed from the returned string", "on an encrypted stream the received bytes are returned without removing the trailing NUL terminator the encoder appended", fn.Pos())
-		c.Check(okMarker && c.c14astUses(fn, nullC) >= 1, rule, fnName(fn)+"#null-marker", "byte 0 of the received string is compared with BinNullChar", "the first byte of the received string is not compared with the constant BinNullChar", fn.Pos())
 	}
-	c.MinCount(rule, "string decoders", nDec, 3)
+	c.Check(okStrip, rule, fnName(fn)+"#strips-terminator", "on an encrypted stream the trailing NUL is removed from the returned string", "on an encrypted stream the received bytes are returned without removing the trailing NUL terminator the encoder appended", fn.Pos())
+	c.Check(okMarker && namesMarker, rule, fnName(fn)+"#null-marker", "byte 0 of the received string is compared with BinNullChar", "the first byte of the received string is not compared with the constant BinNullChar", fn.Pos())
 }
 
 // ---------------------------------------------------------------------------
@@ -1260,7 +1498,7 @@ func c14r5(c *Ctx) {
 					ev, _ := constant.Int64Val(c14constVal(encC))
 					encEdges = e.c14dirEdges(fn, ev)
 				}
-				if c14dominatedByAny(fn, u.Call, encEdges) {
+				if c14dominatedByAny(fn, u.Call, encEdges) || (encC != nil && c.c14dirDominates(e, fn, u.Call, func() int64 { v, _ := constant.Int64Val(c14constVal(encC)); return v }())) {
 					c.Ok(rule, key, "encode side (direction == CodingEncode): the buffer holds outgoing bytes", u.Call.Pos())
 					continue
 				}
@@ -1270,107 +1508,202 @@ func c14r5(c *Ctx) {
 			}
 		}
 	}
-	c.MinCount(rule, "consuming reads of Message.buffer", nReads, 8)
-	c.MinCount(rule, "Reset sites of Message.buffer", nResets, 2)
+	// at least the fixed-width read of GetInt and one byte-wise read; at least one Reset (FlushFrame)
+	c.MinCount(rule, "consuming reads of Message.buffer", nReads, 2)
+	c.MinCount(rule, "Reset sites of Message.buffer", nResets, 1)
 
-	// --- ensureData itself
+	// --- ensureData itself (its tests and its per-frame steps may sit in unexported helpers it calls)
+	c.c14ensureData(rule, e)
+}
+
+// c14ensureData decides the two obligations on ensureData: it returns nil only behind an edge on which
+// m.buffer.Len() >= needed, and every frame ReadFrame hands out is appended to the buffer and its EOM flag
+// recorded before the next frame is read or the function returns. Tests are followed into boolean helpers
+// (c.cxFactCuts); the frame steps are checked in the function that calls ReadFrame and, where that function
+// hands the frame (or its flag) back to its caller, in the caller.
+func (c *Ctx) c14ensureData(rule string, e *c14env) {
 	en := e.ensure
+	top := cxTop(en)
 	needed := ssa.Value(c14lastParam(en))
-	uses, _ := e.c14bufUses(en)
-	var enough []Edge
-	for _, b := range en.Blocks {
-		ifi := blockIf(b)
-		if ifi == nil {
-			continue
-		}
-		a := condAtom(ifi.Cond)
-		isLen := func(v ssa.Value) bool {
-			for _, u := range uses {
-				if u.Method == "Len" && u.Call.Value() == v && u.Base == ssa.Value(en.Params[0]) {
-					return true
-				}
-			}
+	recv := ssa.Value(en.Params[0])
+	isRecv := func(fr *cxFrame, base ssa.Value) bool {
+		r := fr.resolve(base)
+		return r.fr == top && r.v == recv
+	}
+	isLen := func(fr *cxFrame, v ssa.Value) bool { // m.buffer.Len() of ensureData's own message
+		call, ok := v.(*ssa.Call)
+		if !ok {
 			return false
 		}
+		o := calleeObj(call)
+		if o == nil || o.Name() != "Len" || o.Pkg() == nil || o.Pkg().Path() != "bytes" || len(call.Call.Args) != 1 {
+			return false
+		}
+		base, ok := c14loadOf(call.Call.Args[0], e.msgBuf)
+		return ok && isRecv(fr, base)
+	}
+	isNeeded := func(fr *cxFrame, v ssa.Value) bool {
+		r := fr.resolve(v)
+		return r.fr == top && r.v == needed
+	}
+	nTests := 0
+	atom := func(fr *cxFrame, a Atom) (onTrue, onFalse bool) {
 		var enoughOnTrue bool
 		switch {
-		case isLen(a.X) && a.Y == needed && a.Op == token.LSS, isLen(a.Y) && a.X == needed && a.Op == token.GTR:
+		case a.X == nil || a.Y == nil:
+			return false, false
+		case isLen(fr, a.X) && isNeeded(fr, a.Y) && a.Op == token.LSS, isLen(fr, a.Y) && isNeeded(fr, a.X) && a.Op == token.GTR:
 			enoughOnTrue = false
-		case isLen(a.X) && a.Y == needed && a.Op == token.GEQ, isLen(a.Y) && a.X == needed && a.Op == token.LEQ:
+		case isLen(fr, a.X) && isNeeded(fr, a.Y) && a.Op == token.GEQ, isLen(fr, a.Y) && isNeeded(fr, a.X) && a.Op == token.LEQ:
 			enoughOnTrue = true
 		default:
-			continue
+			return false, false
 		}
+		nTests++
 		if a.Neg {
 			enoughOnTrue = !enoughOnTrue
 		}
-		if enoughOnTrue {
-			enough = append(enough, Edge{b, 0})
-		} else {
-			enough = append(enough, Edge{b, 1})
-		}
+		return enoughOnTrue, !enoughOnTrue
 	}
-	c.MinCount(rule, "buffer.Len() < needed tests in ensureData", len(enough), 2)
-	c.mustPassReturns(rule, en, c.c14successTargets(en), newCuts().AddEdges(enough...), "an edge on which buffer.Len() >= needed")
-	var rf []ssa.CallInstruction
-	allInstrs(en, func(_ *ssa.BasicBlock, _ int, in ssa.Instruction) {
-		if call, ok := in.(ssa.CallInstruction); ok && call.Common().IsInvoke() && call.Common().Method == e.readFrm {
-			rf = append(rf, call)
+	cuts := c.cxFactCuts(top, atom, cxDepth)
+	c.MinCount(rule, "buffer.Len() < needed tests in ensureData", len(cuts.Edges)+len(cuts.Via), 1)
+	c.mustPassReturns(rule, en, c.c14successTargets(en), cuts, "an edge on which buffer.Len() >= needed")
+
+	// the ReadFrame call, in ensureData or in a helper it calls
+	type site struct {
+		fr   *cxFrame
+		call ssa.CallInstruction
+	}
+	var rf []site
+	cxCallsDeep(top, nil, func(fr *cxFrame, call ssa.CallInstruction) {
+		if call.Common().IsInvoke() && call.Common().Method == e.readFrm {
+			rf = append(rf, site{fr, call})
 		}
 	})
-	if !c.Check(len(rf) == 1, rule, fnName(en)+"#ReadFrame", "one ReadFrame call", "ensureData does not contain exactly one ReadFrame call", en.Pos()) {
+	if !c.Check(len(rf) == 1, rule, fnName(en)+"#ReadFrame", "one ReadFrame call", "ensureData (with the helpers it calls) does not contain exactly one ReadFrame call", en.Pos()) {
 		return
 	}
-	data, eom := extractN(rf[0].Value(), 0), extractN(rf[0].Value(), 1)
-	succ, _, checked := callErrEdges(en, rf[0].Value())
+	fr, call := rf[0].fr, rf[0].call
+	pos := call.Pos()
+	data, eom := extractN(call.Value(), 0), extractN(call.Value(), 1)
+	succ, _, checked := callErrEdges(fr.fn, call.Value())
 	if !checked || data == nil || eom == nil {
-		c.Violate(rule, fnName(en)+"#ReadFrame-results", "ensureData ignores the error, the data or the EOM flag of ReadFrame", rf[0].Pos())
+		c.Violate(rule, fnName(en)+"#ReadFrame-results", "ensureData ignores the error, the data or the EOM flag of ReadFrame", pos)
 		return
 	}
-	var appendW, eomStore []ssa.Instruction
-	for _, u := range uses {
-		if u.Kind == "write" && u.Method == "Write" && u.Arg == data {
-			appendW = append(appendW, u.Call)
-		}
-	}
-	allInstrs(en, func(_ *ssa.BasicBlock, _ int, in ssa.Instruction) {
-		if st, ok := in.(*ssa.Store); ok && st.Val == eom {
-			if fa, ok := st.Addr.(*ssa.FieldAddr); ok && fieldOfAddr(fa) == e.msgEOM {
-				eomStore = append(eomStore, st)
+	appendDone, eomDone := false, false
+	for level := 0; level <= cxDepth; level++ {
+		fn := fr.fn
+		uses, _ := e.c14bufUses(fn)
+		var appendW, eomStore []ssa.Instruction
+		for _, u := range uses {
+			if u.Kind == "write" && u.Method == "Write" && data != nil && u.Arg == data && isRecv(fr, u.Base) {
+				appendW = append(appendW, u.Call)
 			}
 		}
-	})
-	// edges on which the frame is known empty (len(data) == 0): nothing to append
-	var empty []Edge
-	for _, b := range en.Blocks {
-		if root, z, _, ok := zeroEdges(b); ok {
-			if call, ok := root.(*ssa.Call); ok {
-				if bi, ok := call.Call.Value.(*ssa.Builtin); ok && bi.Name() == "len" && call.Call.Args[0] == data {
-					empty = append(empty, z)
+		allInstrs(fn, func(_ *ssa.BasicBlock, _ int, in ssa.Instruction) {
+			if st, ok := in.(*ssa.Store); ok && eom != nil && st.Val == eom {
+				if fa, ok := st.Addr.(*ssa.FieldAddr); ok && fieldOfAddr(fa) == e.msgEOM && isRecv(fr, fa.X) {
+					eomStore = append(eomStore, st)
+				}
+			}
+		})
+		// edges on which the frame is known empty (len(data) == 0): nothing to append
+		var empty []Edge
+		for _, b := range fn.Blocks {
+			if root, z, _, ok := zeroEdges(b); ok {
+				if lc, ok := root.(*ssa.Call); ok {
+					if bi, ok := lc.Call.Value.(*ssa.Builtin); ok && bi.Name() == "len" && data != nil && lc.Call.Args[0] == data {
+						empty = append(empty, z)
+					}
 				}
 			}
 		}
-	}
-	targets := []Target{{Instr: rf[0]}}
-	for _, t := range c.returnsOf(en) {
-		targets = append(targets, t.Target())
-	}
-	check := func(key string, cuts *Cuts, okMsg, badMsg string) {
-		for _, se := range succ {
-			if len(se.To().Instrs) == 0 {
-				continue
+		// check: from the nil-error edges of the frame source no path reaches the next frame read or a return
+		// without passing the step; a return that hands the value itself to the caller defers the step to it.
+		check := func(val ssa.Value, cuts *Cuts) (wit []*ssa.BasicBlock, upIdx int) {
+			upIdx = -1
+			targets := []Target{{Instr: call}}
+			rets := map[ssa.Instruction]*ssa.Return{}
+			for _, t := range c.returnsOf(fn) {
+				targets = append(targets, t.Target())
+				rets[t.Ret] = t.Ret
 			}
-			for _, t := range targets {
-				if p := findPath(Point{se.To(), 0}, t, cuts); p != nil {
-					c.Violate(rule, fnName(en)+key, badMsg, rf[0].Pos(), c.describePath(p)...)
-					return
+			for _, se := range succ {
+				if len(se.To().Instrs) == 0 {
+					continue
+				}
+				for _, t := range targets {
+					p := findPath(Point{se.To(), 0}, t, cuts)
+					if p == nil {
+						continue
+					}
+					if ret := rets[t.Instr]; ret != nil && fr.up != nil && val != nil {
+						idx := -1
+						for i, r := range ret.Results {
+							if r == val {
+								idx = i
+							}
+						}
+						if idx >= 0 && (upIdx < 0 || upIdx == idx) {
+							upIdx = idx
+							continue
+						}
+					}
+					return p, -1
 				}
 			}
+			return nil, upIdx
 		}
-		c.Ok(rule, fnName(en)+key, okMsg, rf[0].Pos())
+		dataUp, eomUp := -1, -1
+		if !appendDone {
+			wit, up := check(data, newCuts().AddInstrs(appendW...).AddEdges(empty...))
+			switch {
+			case wit != nil:
+				c.Violate(rule, fnName(en)+"#appends-frame", "a frame returned by ReadFrame can be dropped without being appended to the buffer", pos, c.describePath(wit)...)
+				return
+			case up >= 0:
+				dataUp = up
+			default:
+				appendDone = true
+				c.Ok(rule, fnName(en)+"#appends-frame", "every frame read is appended to the buffer before the next test", pos)
+			}
+		}
+		if !eomDone {
+			wit, up := check(eom, newCuts().AddInstrs(eomStore...))
+			switch {
+			case wit != nil:
+				c.Violate(rule, fnName(en)+"#records-EOM", "the EOM flag returned by ReadFrame is not stored into isEOM on some path", pos, c.describePath(wit)...)
+				return
+			case up >= 0:
+				eomUp = up
+			default:
+				eomDone = true
+				c.Ok(rule, fnName(en)+"#records-EOM", "the EOM flag of every frame read is recorded", pos)
+			}
+		}
+		if appendDone && eomDone {
+			return
+		}
+		// continue in the caller with the values the helper handed back
+		if fr.up == nil || fr.call == nil {
+			break
+		}
+		call, fr = fr.call, fr.up
+		data, eom = nil, nil
+		if dataUp >= 0 {
+			data = extractN(call.Value(), dataUp)
+		}
+		if eomUp >= 0 {
+			eom = extractN(call.Value(), eomUp)
+		}
+		succ, _, checked = callErrEdges(fr.fn, call.Value())
+		if !checked || (!appendDone && data == nil) || (!eomDone && eom == nil) {
+			c.Violate(rule, fnName(en)+"#ReadFrame-results", "the frame (or its EOM flag) handed back by "+fnName(calleeFn(call))+" is ignored by its caller", call.Pos())
+			return
+		}
 	}
-	check("#appends-frame", newCuts().AddInstrs(appendW...).AddEdges(empty...), "every frame read is appended to the buffer before the next test", "a frame returned by ReadFrame can be dropped without being appended to the buffer")
-	check("#records-EOM", newCuts().AddInstrs(eomStore...), "the EOM flag of every frame read is recorded", "the EOM flag returned by ReadFrame is not stored into isEOM on some path")
+	c.Undecided(rule, fnName(en)+"#ReadFrame-results", "cannot follow where the frame read by ReadFrame is appended and its EOM flag recorded", pos)
 }
 
 func c14ord(n int) string {
@@ -1413,7 +1746,7 @@ func c14eofEdges(fn *ssa.Function) []Edge {
 // c14checkRead decides one consuming read u of fn.
 func (c *Ctx) c14checkRead(rule, key string, e *c14env, fn *ssa.Function, u c14bufUse, uses []c14bufUse, points []ssa.Instruction) {
 	var needConst int64 = -1
-	var needVal ssa.Value
+	var needVal, needLenOf ssa.Value
 	bounded := false
 	switch u.Method {
 	case "ReadByte":
@@ -1421,6 +1754,14 @@ func (c *Ctx) c14checkRead(rule, key string, e *c14env, fn *ssa.Function, u c14b
 	case "io.ReadFull", "Read":
 		_, n, lenV, isConst, full := c14sliceLen(u.Arg)
 		if !full {
+			// a read-exactly helper: the buffer is the helper's own slice parameter and ensureData is asked
+			// for len() of that very parameter
+			if p, isParam := stripConv(u.Arg).(*ssa.Parameter); isParam {
+				if _, isSlice := p.Type().Underlying().(*types.Slice); isSlice {
+					needLenOf = p
+					break
+				}
+			}
 			c.Undecided(rule, key, "cannot determine how many bytes this read consumes", u.Call.Pos())
 			return
 		}
@@ -1454,6 +1795,12 @@ func (c *Ctx) c14checkRead(rule, key string, e *c14env, fn *ssa.Function, u c14b
 			adequate = needConst >= 0 && k >= needConst
 		} else if needVal != nil {
 			adequate = c14stripNum(a[2]) == needVal
+		} else if needLenOf != nil {
+			if lc, ok := c14stripNum(a[2]).(*ssa.Call); ok {
+				if b, ok := lc.Call.Value.(*ssa.Builtin); ok && b.Name() == "len" && len(lc.Call.Args) == 1 && stripConv(lc.Call.Args[0]) == needLenOf {
+					adequate = true
+				}
+			}
 		}
 		if !adequate {
 			continue
